@@ -72,8 +72,53 @@ def input_ssb(item):
     return c
 
 
+def ws_base(item) -> str:
+    import hashlib
+
+    h = hashlib.sha1(json.dumps(item["case"], sort_keys=True, default=str).encode()).hexdigest()[:16]
+    return f"/tmp/vf-c11-ws/{h}"
+
+
+def open_ws(item):
+    from vf import gen_macro
+
+    return gen_macro.Workspace(item["case"], lambda p: render.render(p), base=ws_base(item))
+
+
+def ws_compile(item, which, compiler=None) -> dict:
+    """which: "main" or the index of an imported file that is compiled as if it were the top-level file"""
+    from vf import spec_tables as T
+    from explorerscript.ssb_converting.ssb_compiler import ExplorerScriptSsbCompiler
+
+    ws = open_ws(item)
+    import os
+
+    if which == "main":
+        path, text = ws.main_path, ws.texts[item["case"]["main_path"]]
+    else:
+        fd = item["case"]["files"][which % len(item["case"]["files"])]
+        path, text = os.path.join(ws.base, fd["path"]), ws.texts[fd["path"]]
+    c = compiler or ExplorerScriptSsbCompiler(T.PERF_VAR, ws.lookup_paths)
+    try:
+        with StepBudget(BUDGET):
+            c.compile(text, path)
+    except BudgetExceeded:
+        return {"raised": "BUDGET"}
+    except Exception as e:  # noqa
+        return describe_exc(e)
+    return {
+        "ops": json.loads(json.dumps(canon.canon_ops(c.routine_ops), default=str)),
+        "offsets": [[op.offset for op in r] for r in c.routine_ops],
+        "table": json.loads(json.dumps(model.real_routine_table(c.routine_infos, c.named_coroutines), default=str)),
+        "source_map": c.source_map.serialize(),
+    }
+
+
 def reference(item) -> dict:
     """All results for one input, each computed on freshly built objects."""
+    if item["kind"] == "ws":
+        n = len(item["case"]["files"])
+        return {"main": ws_compile(item, "main"), "libs": [ws_compile(item, i) for i in range(n)]}
     if item["kind"] in ("program", "text"):
         return {"compile": compile_result(input_text(item))}
     c = input_ssb(item)
